@@ -48,7 +48,7 @@ theorem lexS_newlines (C : Classes) (n : Nat) (z : Z) (hn : z.after.length ≤ n
     · rename_i he
       have hr0 := (hres.eof he).1
       cases hstep with
-      | tok sp pre hsp hpre hafter hbefore hline hty hpl hpo =>
+      | tok sp pre hsp hpre hafter hbefore hline hty hpl hpo _hstopt =>
         rw [hr0] at hafter
         simp only [List.append_nil] at hafter
         have hno : LF ∉ sp ++ pre := by
@@ -67,7 +67,7 @@ theorem lexS_newlines (C : Classes) (n : Nat) (z : Z) (hn : z.after.length ≤ n
       have hih := ih (next C z).2 (by omega)
       rw [newlineOffsets_cons, hih]
       cases hstep with
-      | tok sp pre hsp hpre hafter hbefore hline hty hpl hpo =>
+      | tok sp pre hsp hpre hafter hbefore hline hty hpl hpo _hstopt =>
         have hno : LF ∉ sp ++ pre := by
           intro hm
           rcases List.mem_append.mp hm with hm | hm
@@ -104,7 +104,7 @@ theorem first_gap {z : Z} {r : Token × Z} (h : Step z r) :
     ∀ c ∈ (z.input.drop z.before.length).take (r.1.pos.off - z.before.length), isBlank c = true := by
   rw [input_drop_before]
   cases h with
-  | tok sp pre hsp hpre hafter hbefore hline hty hpl hpo =>
+  | tok sp pre hsp hpre hafter hbefore hline hty hpl hpo _hstopt =>
     rw [hafter, List.append_assoc]
     exact mem_take_prefix (by omega) hsp
   | newline sp cr hsp hcr hafter hbefore hline hcol hstart hty hpl hpo hstop =>
@@ -200,7 +200,7 @@ theorem take_input {z : Z} {p rest : Bytes} (h : z.after = p ++ rest) :
 theorem step_lines {z : Z} {r : Token × Z} (L : Nat) (h : Step z r) (hinv : z.line = L + countLF z.before) :
     r.1.pos.line = L + countLF (z.input.take r.1.pos.off) ∧ r.2.line = L + countLF r.2.before := by
   cases h with
-  | tok sp pre hsp hpre hafter hbefore hline hty hpl hpo =>
+  | tok sp pre hsp hpre hafter hbefore hline hty hpl hpo _hstopt =>
     have ha : z.after = sp ++ (pre ++ r.2.after) := by rw [hafter, List.append_assoc]
     rw [hpo, take_input ha, hpl, hline, hbefore, hinv]
     simp only [countLF_append, countLF_reverse, countLF_of_not_mem hpre, countLF_of_not_mem (spaces_noLF hsp)]
@@ -299,7 +299,7 @@ theorem next_newline_shape (C : Classes) (z : Z) :
     (next C z).1.ty = .newline → newlineShape z.input (next C z).1 = true := by
   intro hty
   cases next_step C z with
-  | tok sp pre hsp hpre hafter hbefore hline hty' hpl hpo => exact absurd hty hty'
+  | tok sp pre hsp hpre hafter hbefore hline hty' hpl hpo _hstopt => exact absurd hty hty'
   | newline sp cr hsp hcr hafter hbefore hline hcol hstart hty' hpl hpo hstop =>
     have hin : z.input[z.before.length + sp.length]? = (cr ++ LF :: (next C z).2.after)[0]? := by
       have : z.before.length + sp.length = (z.before.reverse ++ sp).length := by simp
